@@ -48,7 +48,9 @@ func cubeRoot(a *big.Int) (*big.Int, bool) {
 }
 
 // HPoint is a point with unknown discrete logarithm: the oracle's hash_to_curve of a fixed message.
-func HPoint() ref.Pt { return ref.HashToCurve([]byte("verif point H"), []byte("VERIF-V01-CS02-with-secp256k1_XMD:SHA-256_SSWU_RO_")) }
+func HPoint() ref.Pt {
+	return ref.HashToCurve([]byte("verif point H"), []byte("VERIF-V01-CS02-with-secp256k1_XMD:SHA-256_SSWU_RO_"))
+}
 
 // Points returns the point alphabet of DESIGN.md 3.3 (about 40 points, identity first).
 func Points() []NamedPt {
